@@ -13,6 +13,7 @@ from harness.obs import Built, keys_term, parse_key
 from harness.tracing_store import CrashNow, is_chunk_key
 
 LEVEL = "proof"
+TRANSLATED_KERNELS = ["already_computed", "resume.wiring"]   # harness/translate.py: already_computed is re-translated from /repo on every run and proved equal to Model.Resume
 RULE = ("generated programs (fused and unfused, rechunks with multi-chunk tasks, several outputs) are run to a crash point - after "
         "every k-th task and before every j-th chunk write (quick: sampled, thorough: all) - on a clearable tracing store, then "
         "compute(resume=True) runs on a real executor; result and every stored chunk are compared with an uninterrupted run; the set "
@@ -20,7 +21,8 @@ RULE = ("generated programs (fused and unfused, rechunks with multi-chunk tasks,
         "restart; chunks present at restart must survive unchanged. non-trivial = crash point strictly inside the run with >=2 "
         "pipeline ops; distinct = program x crash point")
 ASSUMPTIONS = ["a crash leaves a subset of whole chunk writes (Zarr set of one key is atomic)",
-               "targets are the ones the computation creates; a pre-existing fully initialised user target is outside the explored space"]
+               "targets are the ones the computation creates, or empty user-supplied Zarr arrays (store scenarios: target chunks equal to or dividing "
+               "the source chunks, crash at every task boundary); a pre-existing fully initialised user target is outside the explored space"]
 TRUSTED = ["tracing WrapperStore write budget (CrashNow raised before the j-th chunk write)"]
 
 
@@ -146,10 +148,93 @@ def work(part, n):
         part.sample({"prog": prog["stmts"][:3], "tasks": T, "chunk_writes": W, "ops": [(nm, al, len(ks)) for nm, al, ks in ops]}, limit=1)
 
 
+def store_resume(part, n):
+    """lazy store of a not yet computed array into an existing, empty user-supplied Zarr array whose chunks equal or divide the source
+    chunks (every task then writes several stored chunks), crash at every task boundary, resume; then resume once more"""
+    import tempfile
+
+    import cubed
+    import cubed.array_api as xp
+    import zarr
+    from cubed.runtime.create import create_executor
+
+    for _ in range(n):
+        nd = part.rng.choice([1, 1, 2])
+        tchunks = tuple(part.rng.randint(1, 3) for _ in range(nd))
+        mult = tuple(part.rng.choice([1, 2, 2, 3]) for _ in range(nd))
+        schunks = tuple(t * m for t, m in zip(tchunks, mult))
+        shape = tuple(c * part.rng.randint(1, 3) - part.rng.choice([0, 0, 1]) * (c > 1) for c in schunks)
+        if any(n_ <= 0 for n_ in shape):
+            continue
+        data = (np.arange(int(np.prod(shape)), dtype=np.int64) + 1).reshape(shape)
+        expected = data * 10
+        tmp = tempfile.mkdtemp(prefix="c09store_")
+        spec = cubed.Spec(work_dir=tmp, allowed_mem="200MB")
+        z = zarr.create_array(store=f"{tmp}/out.zarr", shape=shape, dtype=np.int64, chunks=tchunks, fill_value=0)
+        a = xp.asarray(data, chunks=schunks, spec=spec)
+        b = xp.multiply(a, xp.asarray(10, spec=spec))
+        try:
+            out = cubed.to_zarr(b, z, compute=False)
+        except Exception:
+            part.count("store-declined")
+            continue
+        plan = cubed.core.array.plan(out)
+        T = plan.num_tasks
+        for at in range(0, T + 1):
+            desc = {"store_resume": {"shape": shape, "source_chunks": schunks, "target_chunks": tchunks, "crash_after_tasks": at, "tasks": T}}
+            import shutil
+            for sub in __import__("pathlib").Path(f"{tmp}/out.zarr").glob("c*"):
+                shutil.rmtree(sub, ignore_errors=True)          # back to "no chunk stored"
+            try:
+                out.compute(executor=AdvExecutor(crash_after_tasks=at), _return_in_memory_array=False)
+                crashed = False
+            except CrashNow:
+                crashed = True
+            except Exception as e:
+                part.fail("crash-run-failed-differently", f"{type(e).__name__}: {e}", desc)
+                break
+            part.evaluations += 1
+            n_before = z.nchunks_initialized
+            ran, ran2 = [], []
+
+            class CB(cubed.Callback):
+                def __init__(self, acc):
+                    self.acc = acc
+
+                def on_operation_start(self, event):
+                    self.acc.append(event.name)
+
+            try:
+                out.compute(executor=create_executor(part.rng.choice(["single-threaded", "threads"])), resume=True, callbacks=[CB(ran)],
+                            _return_in_memory_array=False)
+            except Exception as e:
+                part.fail("resume-failed", f"resume of a store into an existing array: {type(e).__name__}: {e}", desc)
+                break
+            got = z[...]
+            part.count("store-resume:" + ("crashed" if crashed else "complete"))
+            if crashed and 0 < n_before < z.nchunks:
+                part.nt(desc)
+            if not np.array_equal(got, expected):
+                part.fail("resume-result-differs", f"store into an existing array with chunks {tchunks} (source chunks {schunks}): after a crash with "
+                          f"{n_before} of {z.nchunks} chunks stored and resume the target differs from the source", desc)
+                break
+            try:
+                out.compute(executor=create_executor("single-threaded"), resume=True, callbacks=[CB(ran2)], _return_in_memory_array=False)
+            except Exception as e:
+                part.fail("resume-failed", f"second resume: {type(e).__name__}: {e}", desc)
+                break
+            if [o for o in ran2 if o != "create-arrays"]:
+                part.fail("complete-array-recomputed", f"second resume of a completely stored target ran {ran2} again", desc)
+                break
+        import shutil
+        shutil.rmtree(tmp, ignore_errors=True)
+
+
 def run(ctx):
     warnings.filterwarnings("ignore")
     N = ctx.n(60, 600)
     per = 5
+    pmap(ctx, store_resume, [ctx.n(3, 12)] * 6, procs=6)
     cases = pmap(ctx, work, [per] * (N // per), procs=12)
     ctx.corr("resume_decisions", "Model.Util Model.Keys Model.Exec Model.ExecObs", cases.get("resume_decisions", []), chunk=150)
 
